@@ -166,3 +166,39 @@ func FileWrite(site string, f *os.File, b []byte) (int, error) {
 
 // FileWrites is the number of file writes of instrumented packages so far.
 func (s *Sim) FileWrites() int { return int(s.fwN.Load()) }
+
+// Pool replaces sync.Pool in instrumented code (the instrumenter rewrites the
+// type): which Get meets which earlier Put is decided by per-P caches and the
+// garbage collector in the real one, i.e. by nothing a replay could repeat.
+// This one is a stack: a Get always returns the value put back last, which is
+// also the most hostile legal behaviour for code that keeps using a value
+// after putting it back.
+type Pool struct {
+	New func() interface{}
+	mu  sync.Mutex
+	st  []interface{}
+}
+
+// Get pops the value put back last, or makes one.
+func (p *Pool) Get() interface{} {
+	p.mu.Lock()
+	if n := len(p.st); n > 0 {
+		v := p.st[n-1]
+		p.st = p.st[:n-1]
+		p.mu.Unlock()
+		Probe("pool handed out a recycled value")
+		return v
+	}
+	p.mu.Unlock()
+	if p.New != nil {
+		return p.New()
+	}
+	return nil
+}
+
+// Put pushes a value.
+func (p *Pool) Put(v interface{}) {
+	p.mu.Lock()
+	p.st = append(p.st, v)
+	p.mu.Unlock()
+}
